@@ -29,6 +29,11 @@ pub struct Case {
     /// (and optionally loses its last environment body) and is queried again
     #[serde(default)]
     pub reconfigure: Option<Reconf>,
+    /// a second robot with the same bodies and limits but another base placement; every posture is
+    /// asked of the robot and then, by the same caller, of the sibling (whose answers are judged
+    /// against the sibling's own oracle)
+    #[serde(default)]
+    pub sibling_base: Option<PoseSpec>,
 }
 
 #[derive(Clone, Debug, Serialize, Deserialize)]
@@ -43,6 +48,8 @@ pub struct QObs {
     pub body_collides: bool,
     pub details: Vec<(usize, usize)>,
     pub near: Option<Vec<(usize, usize)>>,
+    /// (collides, collision_details) of the sibling robot for the same posture, asked right after
+    pub sibling: Option<(bool, Vec<(usize, usize)>)>,
 }
 
 #[derive(Clone, Debug)]
@@ -60,13 +67,16 @@ fn execute(robot: &Arc<KinematicsWithShape>, case: &Case, cfg: &SimCfg) -> SimOu
     let qs = case.qs.clone();
     let near = case.near.as_ref().map(|n| Arc::new(n.build()));
     let clients = case.clients.max(1);
+    let sibling: Option<Arc<KinematicsWithShape>> = sibling_cell(case).map(|c| Arc::new(c.build_robot()));
     sim::simulate(cfg, move || {
-        let one = |robot: &KinematicsWithShape, q: &[f64; 6], near: &Option<Arc<rs_opw_kinematics::collisions::SafetyDistances>>| -> QObs {
+        let sib = sibling.clone();
+        let one = move |robot: &KinematicsWithShape, q: &[f64; 6], near: &Option<Arc<rs_opw_kinematics::collisions::SafetyDistances>>| -> QObs {
             let collides = robot.collides(q);
             let body_collides = robot.body.collides(q, robot.kinematics.as_ref());
             let details = robot.collision_details(q);
             let near = near.as_ref().map(|t| robot.near(q, t));
-            QObs { collides, body_collides, details, near }
+            let sibling = sib.as_ref().map(|s| (s.collides(q), s.collision_details(q)));
+            QObs { collides, body_collides, details, near, sibling }
         };
         if clients <= 1 {
             return qs.iter().map(|q| one(&robot, q, &near)).collect();
@@ -76,6 +86,7 @@ fn execute(robot: &Arc<KinematicsWithShape>, case: &Case, cfg: &SimCfg) -> SimOu
         let mut hs = Vec::new();
         for c in 0..clients {
             let (robot, qs, near, slots) = (robot.clone(), qs.clone(), near.clone(), slots.clone());
+            let one = one.clone();
             hs.push(shuttle::thread::spawn(move || {
                 let mut i = c;
                 while i < qs.len() {
@@ -91,6 +102,14 @@ fn execute(robot: &Arc<KinematicsWithShape>, case: &Case, cfg: &SimCfg) -> SimOu
         let v = slots.lock().unwrap().clone();
         v.into_iter().map(|o| o.expect("caller task did not deliver")).collect()
     })
+}
+
+/// The sibling's cell: same bodies, limits and safety table, base placed elsewhere.
+fn sibling_cell(case: &Case) -> Option<CellSpec> {
+    let p = case.sibling_base?;
+    let mut c = case.cell.clone();
+    c.base_tf = Some(p);
+    Some(c)
 }
 
 /// Why would the library miss this pair? Used only to give violations a structural signature.
@@ -247,7 +266,7 @@ fn judge_full(
             if dropped {
                 r.body.collision_environment.pop();
             }
-            let case2 = Case { cell: cell2, near: near2, qs: case.qs.clone(), cfgs: vec![case.cfgs[0].clone()], clients: case.clients, reconfigure: None };
+            let case2 = Case { cell: cell2, near: near2, qs: case.qs.clone(), cfgs: vec![case.cfgs[0].clone()], clients: case.clients, reconfigure: None, sibling_base: None };
             for mut f in judge_phase(&case2, robot, &mut |_, out| observe(usize::MAX, out), &mut |_| {}) {
                 f.clause = format!("{}/after-reconfiguration", f.clause);
                 f.signature = format!("{}/after-reconfiguration", f.signature);
@@ -266,6 +285,11 @@ fn judge_phase(
 ) -> Vec<Fail> {
     let oc = OracleCell::new(&case.cell);
     let own: Vec<Brute> = case.qs.iter().map(|q| oracle::brute_q(&oc, q, &case.cell.safety)).collect();
+    let sib_oracle: Option<(OracleCell, Vec<Brute>)> = sibling_cell(case).map(|c| {
+        let soc = OracleCell::new(&c);
+        let b = case.qs.iter().map(|q| oracle::brute_q(&soc, q, &c.safety)).collect();
+        (soc, b)
+    });
     let near: Option<Vec<Brute>> = case.near.as_ref().map(|t| case.qs.iter().map(|q| oracle::brute_q(&oc, q, t)).collect());
     let mut fails = Vec::new();
     let mut all_obs: Vec<Option<Vec<QObs>>> = Vec::new();
@@ -289,6 +313,27 @@ fn judge_phase(
                     judge_list(case, &oc, qi, &case.cell.safety, false, "collision_details", &o.details, b, ci, &mut fails);
                     if let (Some(t), Some(nb), Some(ng)) = (&case.near, &near, &o.near) {
                         judge_list(case, &oc, qi, t, true, "near", ng, &nb[qi], ci, &mut fails);
+                    }
+                    if let (Some((sc, sd)), Some((soc, sb))) = (&o.sibling, &sib_oracle) {
+                        let scase = Case { cell: sibling_cell(case).unwrap(), ..case.clone() };
+                        let before = fails.len();
+                        judge_list(&scase, soc, qi, &scase.cell.safety, false, "collision_details", sd, &sb[qi], ci, &mut fails);
+                        let expect_true = scase.cell.safety.mode != Mode::NoCheck && sb[qi].any_definite();
+                        let expect_false = scase.cell.safety.mode == Mode::NoCheck || (!sb[qi].any_definite() && !sb[qi].any_dont_care());
+                        if (expect_true && !*sc) || (expect_false && *sc) {
+                            fails.push(Fail {
+                                clause: if *sc { "e:collides-true".into() } else { "e:collides-false".into() },
+                                signature: "C10/collides/sibling".into(),
+                                detail: format!("collides = {sc} for the sibling robot, oracle says {:?} (posture #{qi})", sb[qi].definite()),
+                                q: qi,
+                                cfgs: vec![ci],
+                            });
+                        }
+                        for f in fails[before..].iter_mut() {
+                            f.clause = format!("{}/sibling-robot", f.clause);
+                            f.signature = format!("{}/sibling-robot", f.signature);
+                            f.detail = format!("{} [second robot with another base placement, asked right after the first by the same caller]", f.detail);
+                        }
                     }
                     for (name, got) in [("collides", o.collides), ("RobotBody::collides", o.body_collides)] {
                         let expect_true = case.cell.safety.mode != Mode::NoCheck && b.any_definite();
@@ -394,6 +439,11 @@ fn candidates(case: &Case) -> Vec<Case> {
     if case.clients > 1 {
         let mut c = case.clone();
         c.clients = 1;
+        out.push(c);
+    }
+    if case.sibling_base.is_some() {
+        let mut c = case.clone();
+        c.sibling_base = None;
         out.push(c);
     }
     if case.qs.len() > 1 {
@@ -579,7 +629,12 @@ pub fn gen_case(seed: u64, shard: u64, run: u64, t: &Tier) -> (Case, Vec<Relatio
     } else {
         None
     };
-    (Case { cell, near, qs, cfgs, clients, reconfigure }, rels)
+    let sibling_base = if knobs.chance(0.2) {
+        Some(PoseSpec { t: [w.range_f64(-0.8, 0.8), w.range_f64(-0.8, 0.8), w.range_f64(0.0, 0.6)], rpy: [0.0, 0.0, w.range_f64(-3.0, 3.0)] })
+    } else {
+        None
+    };
+    (Case { cell, near, qs, cfgs, clients, reconfigure, sibling_base }, rels)
 }
 
 pub fn run(tier_name: &str, seed: u64) -> i32 {
@@ -598,6 +653,9 @@ pub fn run(tier_name: &str, seed: u64) -> i32 {
             let mut pair_stats: Vec<(String, u64)> = Vec::new();
             if case.clients > 1 {
                 tally.bump("scenarios_with_concurrent_callers", 1);
+            }
+            if case.sibling_base.is_some() {
+                tally.bump("scenarios_alternating_with_a_sibling_robot", 1);
             }
             let fails = judge_full(&case, &mut robot, &mut |ci, out| {
                 tally.evaluations += 1;
